@@ -19,7 +19,7 @@ PID = "C19"
 PROP_FILE = "Props/Properties_C19.v"
 LEVEL = "proof"
 ASSUMPTIONS = [
-    "C19: the reference interpreter coq/Cli/Fmt.v is a reading of doc/man/jose-fmt.1.adoc; where the manual is silent it allows several outcomes (list in coq/Cli/C19_NOTES.md): -X not followed by an assertion, inverted assertion on a missing TOP, -M beyond the bottom, -Q element order, -u line terminator, -Y on a scalar, -d of a missing name, -t longer than the array / discarding more than there are, -i with a negative position, non-canonical base64url for -y, operations that close a reference cycle, partial effect of a failing -o/-f/-u on its target file",
+    "C19: the reference interpreter coq/Cli/Fmt.v is a reading of doc/man/jose-fmt.1.adoc; where the manual is silent it allows several outcomes (list in coq/Cli/C19_NOTES.md): -X not followed by an assertion, inverted assertion on a missing TOP, -M beyond the bottom, -Q element order, -u line terminator, -Y on a scalar, -d of a missing name, -t longer than the array / discarding more than there are, -i with a negative position, non-canonical base64url for -y, partial effect of a failing -o/-f/-u on its target file",
     "C19: values are references (store of nodes), as the manual's own examples require; serialization is jansson's compact form with sorted keys (coq/Base/JsonDump.v); object iteration order for -f is insertion order",
     "C19: exit statuses are 8 bit: programs are kept to at most 255 options (premise of C19_exit_index); stdout is a pipe, tty newline behaviour is not modelled; -j FILE is exercised with one fixed input file, -j - (stdin) not at all; malformed option arguments (not JSON / not a number) are usage errors (exit 255 before anything runs) and kept apart",
     "C19: programs are separate argv words (-g a), getopt bundling (-Og) is not exercised",
@@ -107,6 +107,24 @@ def gen(tier, seed):
                  [("-E",)], [("-U",), ("-c",), ("-M", "1"), ("-E",)], [("-g", "0"), ("-g", "0"), ("-A",)],
                  [("-e",), ("-Q",), ("-o", "-")], [("-o", "@F")]):
         add(cyc + tail, "cyclic values")
+    # every option that stores a reference, asked to close a cycle (directly, through a member, through an object);
+    # then the stack is printed: the refused option must have changed nothing
+    closers = [
+        [("-j", "{}"), ("-j", "{}"), ("-s", "a"), ("-M", "1"), ("-s", "b")],
+        [("-j", "[[]]"), ("-g", "0"), ("-M", "1"), ("-a",)],
+        [("-j", "[[]]"), ("-g", "0"), ("-M", "1"), ("-i", "0")],
+        [("-j", "[[7]]"), ("-g", "0"), ("-M", "1"), ("-s", "0")],
+        [("-j", "[[]]"), ("-g", "0"), ("-M", "1"), ("-j", "[]"), ("-M", "1"), ("-a",), ("-U",), ("-x",)],
+        [("-j", '{"k":{}}'), ("-g", "k"), ("-M", "1"), ("-j", "{}"), ("-M", "1"), ("-s", "m"), ("-U",), ("-x",)],
+        [("-j", '{"k":{}}'), ("-g", "k"), ("-M", "1"), ("-j", "{}"), ("-M", "1"), ("-s", "m"), ("-U",), ("-a",)],
+        [("-j", '{"k":{"m":1}}'), ("-g", "k"), ("-M", "1"), ("-j", "{}"), ("-M", "1"), ("-s", "m"), ("-U",), ("-a",)],   # member exists: nothing is added, no cycle
+        [("-j", "[[1]]"), ("-g", "0"), ("-g", "0"), ("-U",), ("-M", "1"), ("-U",), ("-x",)],
+        [("-j", '{"a":[]}'), ("-g", "a"), ("-M", "1"), ("-g", "a"), ("-M", "1"), ("-U",), ("-x",)],      # TOP and PREV the same array: no cycle
+        [("-j", '{"a":{"z":1}}'), ("-g", "a"), ("-M", "1"), ("-g", "a"), ("-M", "1"), ("-U",), ("-a",)],
+    ]
+    for c_ in closers:
+        for tail in ([], [("-o", "-")], [("-U",), ("-o", "-")], [("-Q",), ("-o", "-")], [("-E",)]):
+            add(c_ + tail, "options asked to close a reference cycle")
     for u in USAGE:
         add(u, "usage errors")
     # the manual's own examples (with constants for $jwe etc.)
